@@ -110,9 +110,18 @@ def typeOf (Γ : Expr → Option OTy) : Expr → Option OTy
       match typeOf Γ e with
       | some t => if isNumeric t then some t else none
       | none => none
-  | .binop _ l r =>
+  | .binop o l r =>
       match typeOf Γ l, typeOf Γ r with
       | some (.prim .int), some (.prim .int) => some (.prim .int)
+      -- temporal arithmetic (Part 2 §5.1.1.2): the difference of two points in time is a duration; a point in time plus / minus a duration is a point in
+      -- time of the same kind; durations add, subtract, and scale by numbers
+      | some (.prim .date), some (.prim .date) => if o == .sub then some (.prim .duration) else none
+      | some (.prim .datetime), some (.prim .datetime) => if o == .sub then some (.prim .duration) else none
+      | some (.prim .date), some (.prim .duration) => if o == .add || o == .sub then some (.prim .date) else none
+      | some (.prim .datetime), some (.prim .duration) => if o == .add || o == .sub then some (.prim .datetime) else none
+      | some (.prim .duration), some (.prim .duration) => if o == .add || o == .sub then some (.prim .duration) else none
+      | some (.prim .duration), some b => if (o == .mul || o == .div) && isNumeric b then some (.prim .duration) else none
+      | some a, some (.prim .duration) => if o == .mul && isNumeric a then some (.prim .duration) else none
       | some a, some b => if isNumeric a && isNumeric b then some (.prim .float) else none
       | _, _ => none
   | .call f args =>
